@@ -193,6 +193,10 @@ FailedViews(hk, s) ==
                [] c = "ViewHeadFirst" -> VW_HeadFirst(hk.views[l], l, s)
                [] c = "ViewAfterPred" -> VW_AfterPred(hk.views[l], l, s)}
         : l \in DOMAIN hk.views}
+  \cup (IF "held" \notin DOMAIN hk THEN {}
+        ELSE UNION {IF l \in {s.root} \cup Regions(s.H)
+                       /\ ~(VW_Complete(hk.held[l], l, s) /\ VW_Once(hk.held[l], l, s) /\ VW_HeadFirst(hk.held[l], l, s) /\ VW_AfterPred(hk.held[l], l, s))
+                    THEN {"ViewHeldAcrossStage"} ELSE {} : l \in DOMAIN hk.held})
   \cup (IF "from" \notin DOMAIN hk THEN {}
         ELSE UNION {UNION {IF h \in Level(s.H, l) /\ ~VW_From(hk.from[l][h], h, l, s) THEN {"ViewFromHead"} ELSE {} : h \in DOMAIN hk.from[l]} : l \in DOMAIN hk.from})
 
